@@ -206,11 +206,13 @@ def recv_paths(cx, fe):
         rp.path, rp.exit = p, p.exit
         for i, ev in enumerate(p.ev):
             if ev.kind == 'cond':
-                sub = U(ev._sub)
+                sub, pol = U(ev._sub), ev.a
+                while sub.startswith('not '):
+                    sub, pol = sub[4:].strip(), not pol
                 if sub.endswith('.broadcast_enable'):
-                    rp.flags['broadcast_enable'] = ev.a
+                    rp.flags['broadcast_enable'] = pol
                 elif sub.endswith('.ListenOnly'):
-                    rp.flags['listen_only'] = ev.a
+                    rp.flags['listen_only'] = pol
                 elif ' in ' in sub and sub.startswith(('0 in', '0 not in')):
                     pass
             elif ev.kind == 'loop' and ev.a == 'enter' and ev.frame.fid == 0:
